@@ -44,6 +44,24 @@ Theorem C02_all_workers_method_is_the_loop : forall (W C R : Type) (wstep : W ->
 Proof. exact (@seq_all_method). Qed.
 Print Assumptions C02_all_workers_method_is_the_loop.
 
+(* scripted workers: a step() of the SubprocVecEnv model (under any schedule, by the theorems above) returns,
+   in sub-environment order, exactly the outputs of the DummyVecEnv loop of Model/VecEnv.v (C01) and leaves the
+   workers' environments and reset_infos as that loop leaves them *)
+Theorem C02_step_eq_dummy_step : forall (ws : list wstate) (acts : list Z),
+  length acts = length ws ->
+  let n := length ws in
+  let r := step_loop sc_step sc_reset (map ws_env ws) (map ws_ri ws) acts in
+  exists sq,
+    seq_exec sworker_step (mk_sconfig [] (map (fun s => mk_sworker [] s) ws))
+             (sends (seq 0 n) (fun i => CmdStep (nth i acts 0%Z)) ++ recvs (seq 0 n)) = Some sq /\
+    map fst (s_log sq) = seq 0 n /\
+    map snd (s_log sq) = map reply_of (combine (snd (fst r)) (snd (fst (fst r)))) /\
+    map (fun w => ws_env (sw_st w)) (s_workers sq) = fst (fst (fst r)) /\
+    map (fun w => ws_ri (sw_st w)) (s_workers sq) = snd (fst (fst r)) /\
+    Forall (fun w => sw_queue w = []) (s_workers sq).
+Proof. exact subproc_step_eq_dummy_step. Qed.
+Print Assumptions C02_step_eq_dummy_step.
+
 (* --- the communication skeleton regenerated from subproc_vec_env.py is the one of the model --- *)
 Theorem C02_fragment_skeletons :
   skel_step_async ++ skel_step_wait = model_skel_step /\ skel_reset = model_skel_reset /\
